@@ -52,6 +52,9 @@ impl Block for SignalSourceComplex {
     fn work(&mut self) -> Result<BlockRet> {
         let mut o = self.dst.write_buf()?;
         let n = o.len();
+        if n == 0 {
+            return Ok(BlockRet::WaitForStream(&self.dst, 1));
+        }
         for (to, from) in o.slice().iter_mut().zip(self.take(n)) {
             *to = from;
         }
@@ -103,6 +106,9 @@ impl Block for SignalSourceFloat {
     fn work(&mut self) -> Result<BlockRet> {
         let mut o = self.dst.write_buf()?;
         let n = o.len();
+        if n == 0 {
+            return Ok(BlockRet::WaitForStream(&self.dst, 1));
+        }
         o.slice()
             .iter_mut()
             .zip(self)
